@@ -176,10 +176,57 @@ def eval_app(v, env):
         if not isinstance(x, Arr):
             raise CannotEvaluate("len of scalar")
         return Fraction(len(x))
+    if fn == "slice":
+        vals = [evaluate(x, env) for x in a]
+        return slice(*[None if x is None else int(_num(x)) for x in vals])
+    if fn in ("flatten", "ravel"):
+        x = E(0)
+        out = []
+
+        def fl(y):
+            if isinstance(y, Arr):
+                for z in y:
+                    fl(z)
+            else:
+                out.append(y)
+        fl(x)
+        return Arr(out)
+    if fn == "nextafter":
+        x, d = E(0), a[1]
+        from .terms import INF as _INF, neg as _neg, same as _same
+
+        def direction(t):
+            if isinstance(t, Tup):
+                return [direction(i) for i in t.items]
+            if t == _INF:
+                return 1
+            if _same(t, _neg(_INF)):
+                return -1
+            raise CannotEvaluate("nextafter direction")
+
+        def apply(dd):
+            if isinstance(dd, list):
+                return Arr(apply(i) for i in dd) if len(dd) != 1 else apply(dd[0]) if not isinstance(x, Arr) else Arr([apply(dd[0])]) if False else apply(dd[0])
+            return _bcast(lambda v_: Eps(_num(v_), dd), x)
+
+        dirs = direction(d)
+        if isinstance(dirs, list):
+            return Arr(apply(i) for i in dirs)
+        return apply(dirs)
+    if fn == "trapezoid":
+        y, x = E(0), E(1)
+        if not (isinstance(y, Arr) and isinstance(x, Arr) and len(x) == len(y)):
+            raise CannotEvaluate("trapezoid of mismatched arrays")
+        tot = Fraction(0)
+        for i in range(len(x) - 1):
+            tot += (_num(x[i + 1]) - _num(x[i])) * (_num(y[i + 1]) + _num(y[i])) / 2
+        return tot
     if fn == "getitem":
         base, idx = E(0), E(1)
         if not isinstance(base, Arr):
             raise CannotEvaluate("subscript of scalar")
+        if isinstance(idx, slice):
+            return Arr(base[idx])
 
         def pick(i):
             i = _num(i)
